@@ -208,6 +208,38 @@ def locator_rule(rep, u, fns=None):
     return n
 
 
+def validator_guard_rule(rep, u, lab):
+    """R-GUARD0 (read form): a validator of untrusted input (name ends in _chk / _check / _is_valid / _validate) reads a
+    header field of its (pointer, size) input only after a test of the size: some branch that dominates the read - not the
+    condition the read itself sits in - mentions the size parameter.  (A datagram shorter than the fixed header must be
+    refused before the header is looked at.)"""
+    import re
+    n = 0
+    for fn in u.function_list:
+        if not fn.has_cfg or fn.relfile() not in (lab, "include/" + lab) or not re.search(r"(_chk|_check|_is_valid|_validate)$", fn.name):
+            continue
+        for pn, sn, _es in memsafe.pairs_for(fn):
+            per = 0
+            for pos, root, x, ps in fn.nodes():
+                if not (x.get("k") == "mem" and x.get("arrow")):
+                    continue
+                b = core.strip_casts(x["b"])
+                if not (b.get("k") == "ref" and b.get("n") == pn and b.get("dk") == "parm"):
+                    continue
+                per += 1
+                n += 1
+                rep.functions.add(fn.name)
+                guarded = any(fn.blocks[bid].cond is not None and bid != pos[0] and fn.dominates(bid, pos[0]) and
+                              any(y.get("k") == "ref" and y.get("n") == sn for y, _ in walk(fn.blocks[bid].cond))
+                              for bid in fn.reachable_blocks())
+                desc = "%s reads %s only after a test of %s" % (fn.name, key(x), sn)
+                (rep.proved if guarded else rep.violated)(
+                    "R-GUARD0", fn, "header-read:%s#%d" % (x.get("f"), per), desc,
+                    "" if guarded else "no earlier branch tests '%s': for an input shorter than the header the field at offset %d is read from "
+                    "beyond the caller's bytes" % (sn, x.get("off", 0) // 8), x.get("ln"))
+    return n
+
+
 def run(rep, tier):
     us = driver.load_units(specs())
     rep.use_units(us)
@@ -223,6 +255,7 @@ def run(rep, tier):
     rep.floor("data-dependent strides (TLV walkers)", ns, 4)
     nl = sum(locator_rule(rep, u) for u in us.values())
     rep.floor("validator/locator pairs", nl, 2)
+    rep.floor("validator header reads", sum(validator_guard_rule(rep, u, lab) for lab, u in us.items()), 12)
     # request line: the components returned are sub-spans of the target (rule lives in C20)
     from props import c20
     rep.floor("target component searches", c20.span_rule(rep, us["src/proto/http.c"]), 3)
